@@ -30,7 +30,7 @@ func versionGrid() []string {
 
 func checkC18(c *Ctx) error {
 	grid := versionGrid()
-	c.Rule = fmt.Sprintf("binaries linked with -X main.version=B for B from the grid majors {0,1,2,3,10} x minors {0,1,2,3,9,10,12,100} x patches {0,7} x {release, -rc.1, +b5} (%d versions; thorough: all, plain and v-prefixed; quick: seeded sample of 20 + fixed corner builds) plus non-semantic builds (unset, devel, dev-main, v, vX) x every declared version V of the same grid (quoted and unquoted YAML) plus absent V plus malformed V (v-prefixed, 4 components, leading zeros, letters, empty, int, float, bool, list, null). Oracle: the truth table of the statement (engine/ref.VersionGate); verdicts are read from the exit status and the failing step (gate rejections fail in Compile, unparsable versions fail in Read config). distinct = distinct (B, V) pair; non-trivial = B is a semantic version and V is declared", len(grid))
+	c.Rule = fmt.Sprintf("binaries linked with -X main.version=B for B from the grid majors {0,1,2,3,10} x minors {0,1,2,3,9,10,12,100} x patches {0,7} x {release, -rc.1, +b5} (%d versions; thorough: all, plain and v-prefixed; quick: seeded sample of 36 + fixed corner builds) plus non-semantic builds (unset, devel, dev-main, v, vX) x every declared version V of the same grid (quoted and unquoted YAML) plus absent V plus malformed V (v-prefixed, 4 components, leading zeros, letters, empty, int, float, bool, list, null). Oracle: the truth table of the statement (engine/ref.VersionGate); verdicts are read from the exit status and the failing step (gate rejections fail in Compile, unparsable versions fail in Read config). distinct = distinct (B, V) pair; non-trivial = B is a semantic version and V is declared", len(grid))
 	c.Assumptions = []string{"`-X main.version=B` is how release builds carry their version (Makefile, main.go)", "two-component shorthand versions (\"1.2\") are not judged: semver.org and the Go library disagree"}
 	w := c.W
 	var builds []string
@@ -41,14 +41,14 @@ func checkC18(c *Ctx) error {
 	} else {
 		r := rand.New(rand.NewSource(c.Seed))
 		perm := r.Perm(len(grid))
-		for _, i := range perm[:20] {
+		for _, i := range perm[:36] {
 			if r.Intn(2) == 0 {
 				builds = append(builds, "v"+grid[i])
 			} else {
 				builds = append(builds, grid[i])
 			}
 		}
-		builds = append(builds, "0.0.0", "v0.3.7", "1.0.0", "v1.3.0-rc.1", "2.2.7+b5", "v3.3.7", "1.10.0", "v1.9.7", "10.2.0", "v2.100.0-rc.1", "0.10.0", "0.9.7", "v10.12.0")
+		builds = append(builds, "0.0.0", "v0.3.7", "1.0.0", "v1.3.0-rc.1", "2.2.7+b5", "v3.3.7", "1.10.0", "v1.9.7", "10.2.0", "v2.100.0-rc.1", "0.10.0", "0.9.7", "v10.12.0", "0.0.0-rc.1", "v0.0.0-rc.1", "0.0.0+b5", "0.0.7-rc.1", "v1.0.0-rc.1", "1.0.0+b5")
 	}
 	builds = append(builds, "", "devel", "dev-main", "v", "vX", "main", "1.x.0")
 	bins := make([]string, len(builds))
